@@ -24,6 +24,14 @@ CHECKS = {
         'is enumerated exhaustively in every run. Exploration, not proof.',
         'Reference = the CPython list/dict of this interpreter; translation table encodes only the documented extensions; NaN excluded.',
         'DESIGN.md section 3 C02'),
+    'C06': (
+        'algebraic-law PBT over perturbation-closed value pools (Hypothesis), all pairs and triples per pool',
+        'Generated pools of 2-8 values (primitives, None, MISSING, lists, dicts, tuples of comparable primitives, objects of 5 '
+        'classes incl. subclasses, nestings) closed under perturbations that make equal-but-not-identical and one-leaf-apart '
+        'values common; reflexivity/symmetry/transitivity of pg.eq, ne==not eq, eq=>hash, ==/!=/hash() agreement for opted-in '
+        'classes, lt never raises, trichotomy, gt==swapped lt, lt transitivity and sort validity checked on every pair/triple. Exploration.',
+        'NaN excluded; tuples restricted to one comparable primitive kind per case (the stated quantifier); hash law only where pg.hash is defined.',
+        'DESIGN.md section 3 C06'),
 }
 
 NOT_BUILT = 'check not built yet in this round (planned; see DESIGN.md section 3)'
